@@ -251,3 +251,7 @@ impl FragmentAssembler {
     }
   }
 }
+
+#[cfg(rustdds_verif)]
+#[path = "/verif/harness/incrate/access/fragment_assembler.rs"]
+mod verif_access;
